@@ -317,7 +317,22 @@ where
                             }
                         }
                     }
-                    _ => {}
+                    BoolSym::And | BoolSym::Or => {
+                        // NOTE: The solver can only combine predicates, a bare number, field or
+                        // cast is not one.
+                        if !left.is_solvable() {
+                            return Err(crate::error::parse_led_preceding(format!(
+                                "encountered - '{:?}'",
+                                t
+                            )));
+                        }
+                        if !right.is_solvable() {
+                            return Err(crate::error::parse_led_following(format!(
+                                "encountered - '{:?}'",
+                                t
+                            )));
+                        }
+                    }
                 }
                 Ok(Expression::BooleanExpression(
                     Box::new(left),
